@@ -73,7 +73,7 @@ def check(ob, extra_axioms=(), want_model=True, rlimit=None):
   s.add(z3.Not(ob.goal))
   # stage 1: z3 with a small deterministic budget; stage 2: cvc5 (far more stable on string
   # goals); stage 3: z3 with the full budget.  sat/unsat from any stage is final.
-  s.set('rlimit', min(rlimit or RLIMIT, RLIMIT // 20))
+  s.set('rlimit', min(rlimit or RLIMIT, RLIMIT // 100))      # stage 1 is cheap: most obligations need far less
   r = s.check()
   ob.backend = 'z3'
   if r == z3.unknown:
@@ -102,12 +102,12 @@ def check(ob, extra_axioms=(), want_model=True, rlimit=None):
       return ob.result
     # stage 3: a small portfolio -- the obligations that are decided at all are decided within a second or two, and
     # whether z3 finds the instantiations depends on its random seed: several short runs beat one long run
-    for seed_ in (0, 7, 23, 101):
+    for seed_, share in ((0, 10), (7, 10), (23, 10), (101, 2)):
       s3 = z3.Solver()
       s3.set('random_seed', seed_)
       # budgets are resource counts (deterministic); the wall-clock caps are only guards and are wide enough for
       # a machine whose 16 cores are all busy (an obligation needing 2 s alone needs ~12 s then)
-      s3.set('rlimit', (rlimit or RLIMIT) // 3)
+      s3.set('rlimit', (rlimit or RLIMIT) // share)
       s3.set('timeout', TIMEOUT_MS // 2)
       for a in s.assertions():
         s3.add(a)
